@@ -331,7 +331,7 @@ def unitary_only(prog):
 def transform_part(tier, rng, good, report):
     from pennylane.transforms.decompose import DecomposeInterpreter, decompose_plxpr_to_plxpr
     quick = tier == "quick"
-    limit = 160 if quick else 800
+    limit = 90 if quick else 800
     maxw = 5 if quick else 6
     cases, meta = [], []
     cnt = collections.Counter()
@@ -339,7 +339,7 @@ def transform_part(tier, rng, good, report):
     rng.shuffle(cand)
     total_cost = 0
     for prog, flav, v in cand:
-        if len(cases) >= limit or total_cost > (1000000 if quick else 25000000):
+        if len(cases) >= limit or total_cost > (500000 if quick else 25000000):
             break
         gs = GATE_SETS[len(cases) % len(GATE_SETS)]
         kw = {"gate_set": set(gs)}
